@@ -24,7 +24,7 @@ From SK Require Import lib.Tok lib.LGraph model.C03_Model proof.C03_Spec proof.C
                        proof.C03_PairIdsComplete proof.C03_Wrap proof.C03_DefaultBalance
                        proof.C03_DefaultEnd proof.C03_DefaultWiring
                        model.C03_Order proof.C03_Ord proof.C03_FirstFit proof.C03_OrdEnd
-                       model.C03_Reactor proof.C03_ReactorProof proof.C03_ReactorSpec proof.C03_Capstone proof.C03_LinkDefault proof.C03_LinkImplicit.
+                       model.C03_Reactor proof.C03_ReactorProof proof.C03_ReactorSpec proof.C03_Capstone proof.C03_LinkDefault proof.C03_LinkImplicit proof.C03_LinkBackward.
 Import ListNotations.
 Local Open Scope Z_scope.
 
@@ -983,4 +983,48 @@ Theorem C03_its_list_implicit_end_to_end : forall (invert : bool) (inp : rin) (t
        total_charge (fst (its_decompose g)) = total_charge (snd (its_decompose g))).
 Proof. exact its_list_implicit_end_to_end. Qed.
 Print Assumptions C03_its_list_implicit_end_to_end.
+
+(** the default mode BACKWARDS: the reactor prepares [invert_template tpl].  The template condition is symmetric in the two
+    sides, so it transfers to the inverted template (as do "same element", well-formedness and closed bonds) ... *)
+Theorem C03_tpl_condition_invert : forall tpl : its,
+  (forall (k : N) (a : inode), In (k, a) (gnodes tpl) -> a_el (iH a) = a_el (iG a)) -> simple_edgesb (gedges tpl) = true ->
+  tpl_condition tpl -> tpl_condition (invert_template tpl).
+Proof. exact tpl_condition_invert. Qed.
+Print Assumptions C03_tpl_condition_invert.
+
+(** ... and the property holds END TO END backwards under hypotheses on the template AS WRITTEN, the substrate and the
+    matcher's contract (the backward half of the property's quantifier in the default mode) *)
+Theorem C03_its_list_default_end_to_end_backward : forall (inp : rin) (tpl rc : its) (l r : molg) (gs : list its),
+  i_rule inp = synrule (invert_template tpl) true -> synrule (invert_template tpl) true = Some (rc, l, r) ->
+  (forall (k : N) (a : inode), In (k, a) (gnodes tpl) -> a_el (iH a) = a_el (iG a)) ->
+  wf_rcb tpl = true -> edges_closedb tpl = true -> tpl_condition tpl ->
+  wf_hostb (i_host inp) = true -> forallb (call_okm (i_host inp) l) (i_calls inp) = true ->
+  spec_its inp = Some gs ->
+  forall g : its, In g gs ->
+    instance_of (i_host inp) rc g /\
+    (forall e : N, elem_count e (fst (its_decompose g)) = elem_count e (snd (its_decompose g))) /\
+    total_charge (fst (its_decompose g)) = total_charge (snd (its_decompose g)).
+Proof. exact its_list_default_end_to_end_backward. Qed.
+Print Assumptions C03_its_list_default_end_to_end_backward.
+
+(** a SynRule OBJECT (prepared by the caller in the default mode from a template) applied backwards: the reactor inverts the
+    PREPARED rule graph rc0 and uses it without preparing it again (C03_wrap_rule, /repo cc40c07); every graph of its_list
+    is an instance of the inverted prepared rule, balanced if the template satisfies [tpl_condition] — hypotheses on the
+    template, the substrate and the matcher's contract.  (Forwards a SynRule object is used as it is: C03_its_list_default_
+    end_to_end / _implicit_end_to_end apply verbatim.) *)
+Theorem C03_its_list_synrule_object_backward : forall (implicit_temp : bool) (inp : rin) (tpl rc0 : its) (l0 r0 : molg) (gs : list its),
+  synrule tpl true = Some (rc0, l0, r0) ->
+  i_rule inp = wrap_template_rule true implicit_temp (rc0, l0, r0) ->
+  (forall (k : N) (a : inode), In (k, a) (gnodes tpl) -> a_el (iH a) = a_el (iG a)) ->
+  wf_rcb tpl = true -> edges_closedb tpl = true ->
+  wf_hostb (i_host inp) = true ->
+  forallb (call_okm (i_host inp) (fst (its_decompose (invert_template rc0)))) (i_calls inp) = true ->
+  spec_its inp = Some gs ->
+  forall g : its, In g gs ->
+    instance_of (i_host inp) (invert_template rc0) g /\
+    (tpl_condition tpl ->
+       (forall e : N, elem_count e (fst (its_decompose g)) = elem_count e (snd (its_decompose g))) /\
+       total_charge (fst (its_decompose g)) = total_charge (snd (its_decompose g))).
+Proof. exact its_list_synrule_object_backward. Qed.
+Print Assumptions C03_its_list_synrule_object_backward.
 
